@@ -102,6 +102,137 @@ def run(ctx, ck) -> None:
     ck.floors.extend((r.replace('R-BLK', 'B7'), c, m, w) for r, c, m, w in sub.floors)
 
 
+def _products_by_evaluation(ctx, ck, rule: str = 'B7') -> bool:
+    """B7 by abstract execution (sa/axinterp.py): the reduction driver, with every binary rule registered, is evaluated on
+    L @ R for the nine pairs of block classes, each holding two opaque operators whose structures make L @ R a well-formed
+    product.  The pairwise rewrite is an identity of block matrices only when L consumes one input per block (row, diagonal)
+    and R produces one output per block (diagonal, column): those four pairs must become one operator of the class the
+    block algebra gives (row / column / diagonal / sum) holding A_i @ B_i in order, the five others must be left alone,
+    and so must aligned pairs whose containers are nested differently or have different lengths.  Returns True when decided."""
+    from types import SimpleNamespace
+
+    from ..axinterp import AxArr, Obj, Raised, StructLeaf, Undecided
+    from . import c07
+    from .. import run as _run
+
+    if _run.CONTROL_EXPECT and not _run.CONTROL_EXPECT.endswith(('B7', 'R-BLK', 'O6')):
+        return False
+    world, table = ctx.world, ctx.table
+    generic = table.find('furax._base.dense.DenseBlockDiagonalOperator')
+    row, diag, col = (table.find(f'{BLOCKS}.Block{n}Operator') for n in ('Row', 'Diagonal', 'Column'))
+    add = table.by_name('AdditionOperator')
+    comp = table.by_name('CompositionOperator')
+    if None in (generic, row, diag, col, add, comp):
+        return False
+    drv = c07.abstract_driver(SimpleNamespace(world=world, table=table), table.rules())
+    if drv is None:
+        return False
+    it, call, fn = drv
+    s = StructLeaf(((frozenset({'s'}), 3),))
+    pair = [s, s]
+
+    def gen(name, i, o):
+        return Obj(generic, {'_in_structure': i, '__out__': o, 'name': name})
+
+    def block(cls, ops):
+        return Obj(cls, {'blocks': ops})
+
+    def leaves(v):
+        if isinstance(v, Obj):
+            return [v]
+        if isinstance(v, dict):
+            return [x for k in sorted(v) for x in leaves(v[k])]
+        if isinstance(v, (list, tuple)):
+            return [x for e in v for x in leaves(e)]
+        return [v]
+
+    def skeleton(v):
+        if isinstance(v, dict):
+            return {k: skeleton(x) for k, x in v.items()}
+        if isinstance(v, (list, tuple)):
+            return type(v)(skeleton(x) for x in v)
+        return '*'
+
+    def factors(o):
+        if isinstance(o, Obj) and o.cls is comp:
+            return [f for e in leaves(o.attrs.get('operands')) for f in factors(e)]
+        return [o]
+
+    names = {id(row): 'BlockRow', id(diag): 'BlockDiagonal', id(col): 'BlockColumn'}
+    problems: list[str] = []
+    ncases = 0
+
+    def evaluate(text, L, R, want_cls, As, Bs):
+        nonlocal ncases
+        ncases += 1
+        try:
+            res = call([L, R])
+        except Raised as exc:
+            problems.append(f'{text}: reduction raises {exc.name}' + ('' if want_cls is not None else ' (the pairwise rewrite is attempted on a product it does not apply to)'))
+            return True
+        except Undecided as exc:
+            # not decided by evaluation: the written form of the rule classes decides (or is itself reported undecided)
+            ck.note(f'{rule}: the reduction of {text} could not be executed abstractly: {exc}' + (f' [{it.degraded[0]}]' if it.degraded else ''))
+            return False
+        if it.degraded or not isinstance(res, list) or not all(isinstance(o, Obj) for o in res):
+            ck.note(f'{rule}: the reduction of {text} could not be executed abstractly: {(it.degraded or ["the result is not a list of operators"])[0]}')
+            return False
+        if want_cls is None:
+            if [id(o) for o in res] != [id(L), id(R)]:
+                problems.append(f'{text} is rewritten into {" @ ".join(o.cls.name for o in res)}: the blocks of such a product do not multiply pairwise, the two operators must be left as they are')
+            return True
+        if len(res) != 1 or res[0].cls is not want_cls:
+            problems.append(f'{text} reduces to {" @ ".join(o.cls.name for o in res)}, expected one {want_cls.name}')
+            return True
+        held = res[0].attrs.get('operands' if want_cls is add else 'blocks')
+        got = [[id(f) for f in factors(b)] for b in leaves(held)]
+        want = [[id(a), id(b)] for a, b in zip(As, Bs)]
+        if got != want:
+            problems.append(f'{text}: the {want_cls.name} does not hold A_i @ B_i for each i in order')
+        elif want_cls is not add and skeleton(held) != skeleton(L.attrs['blocks']):
+            problems.append(f'{text}: the products are not held in the container of the operands ({skeleton(held)} instead of {skeleton(L.attrs["blocks"])}): the structures the result acts on are not those of the product')
+        return True
+
+    table_want = {('BlockRow', 'BlockDiagonal'): row, ('BlockDiagonal', 'BlockColumn'): col, ('BlockDiagonal', 'BlockDiagonal'): diag, ('BlockRow', 'BlockColumn'): add}
+    for Lc in (row, diag, col):
+        for Rc in (row, diag, col):
+            ln, rn = names[id(Lc)], names[id(Rc)]
+            # structures that make L @ R well formed: L.in == R.out
+            r_out_each = pair if (Rc is row and Lc is not col) else s   # a row's blocks share their output: it must be the pair the left operator consumes
+            if Lc is col:
+                a_in = s if Rc is row else pair
+            else:
+                a_in = s
+            As = [gen(f'A{i}', a_in, s) for i in range(2)]
+            Bs = [gen(f'B{i}', s, r_out_each) for i in range(2)]
+            for container in ('list', 'tuple', 'dict'):
+                if container == 'list':
+                    L, R = block(Lc, list(As)), block(Rc, list(Bs))
+                elif container == 'tuple':
+                    L, R = block(Lc, tuple(As)), block(Rc, tuple(Bs))
+                else:
+                    L, R = block(Lc, {'x': As[0], 'y': As[1]}), block(Rc, {'y': Bs[1], 'x': Bs[0]})
+                if not evaluate(f'{ln}({container} of A_i) @ {rn}({container} of B_i)', L, R, table_want.get((ln, rn)), As, Bs):
+                    return False
+    # containers that are not aligned: nothing to multiply pairwise
+    for (ln, rn), want_cls in table_want.items():
+        Lc = {'BlockRow': row, 'BlockDiagonal': diag}[ln]
+        Rc = {'BlockDiagonal': diag, 'BlockColumn': col}[rn]
+        As = [gen(f'A{i}', s, s) for i in range(3)]
+        Bs = [gen(f'B{i}', s, s) for i in range(3)]
+        if not evaluate(f'{ln}([A0, [A1, A2]]) @ {rn}([[B0, B1], B2])', block(Lc, [As[0], [As[1], As[2]]]), block(Rc, [[Bs[0], Bs[1]], Bs[2]]), None, As, Bs):
+            return False
+        if not evaluate(f'{ln}([A0, A1]) @ {rn}([B0, B1, B2])', block(Lc, As[:2]), block(Rc, Bs), None, As, Bs):
+            return False
+        if not evaluate(f"{ln}({{'x', 'y'}}) @ {rn}({{'x', 'z'}})", block(Lc, {'x': As[0], 'y': As[1]}), block(Rc, {'x': Bs[0], 'z': Bs[1]}), None, As, Bs):
+            return False
+    ck.expect(rule, not problems, fn, f'on {ncases} products of two block operators (nine class pairs, list, tuple and dict containers, misaligned containers) the driver multiplies the blocks '
+              'pairwise exactly for row@diagonal, diagonal@column, diagonal@diagonal and row@column, into the class the block algebra gives, and leaves every other product alone',
+              f'{problems[0] if problems else ""} ({len(problems)} of {ncases} products)', instance='block products by evaluation', semantic=True)
+    ck.floor(rule, ncases, 39, 'block products evaluated')
+    return True
+
+
 def _application_shape(ck, table, row, diag, col) -> None:
     fn = diag.own.get('mv')
     t = _ret(fn) if isinstance(fn, ast.FunctionDef) else None
